@@ -167,8 +167,7 @@ func (am *AppMapper) mapResponse(stmt []*sysl.Statement, appName string) map[str
 			continue
 		}
 
-		if strings.Contains(stmt[i].GetRet().Payload, "<:") {
-			returnStatement := strings.Split(stmt[i].GetRet().Payload, " <: ")
+		if returnStatement := strings.SplitN(stmt[i].GetRet().Payload, " <: ", 2); len(returnStatement) == 2 {
 			returnName = returnStatement[0]
 			returnType = am.mapReturnType(returnStatement[1], appName)
 		} else {
